@@ -6,10 +6,22 @@ def _local_lids(n):
     return [x.get("lid") for x in hirq.walk(n) if x.get("k") == "path" and "lid" in x]
 
 
-def guard_names(cond):
-    """Normalised names of the crate callees a guard condition consults (has_/get_/is_ prefixes stripped)."""
+LETS = {}  # lid -> init expression of immutable `let` bindings of the function being walked (set by Seq.run)
+
+
+def guard_names(cond, depth=0):
+    """Normalised names of the crate callees a guard condition consults (has_/get_/is_ prefixes stripped) and its
+    polarity. Negations are counted through `!` and through local bindings (`let ext = !x.get_location(); if ext`)."""
     out = set()
-    for c in hirq.calls(cond):
+    c0 = hirq.strip(cond)
+    neg = False
+    while isinstance(c0, dict) and c0.get("k") == "un" and c0.get("op") == "Not":
+        neg = not neg
+        c0 = hirq.strip(c0["e"])
+    if isinstance(c0, dict) and c0.get("k") == "path" and c0.get("lid") in LETS and depth < 4:
+        names, n2 = guard_names(LETS[c0["lid"]], depth + 1)
+        return names, neg != n2
+    for c in hirq.calls(c0):
         d = c.get("def") or ""
         if d.startswith("structs::") or d.startswith("helper::"):
             nm = d.split("::")[-1]
@@ -17,7 +29,9 @@ def guard_names(cond):
                 if nm.startswith(p):
                     nm = nm[len(p):]
             out.add(nm)
-    neg = hirq.strip(cond).get("k") == "un" and hirq.strip(cond).get("op") == "Not"
+    for x in hirq.walk(c0):
+        if x.get("k") == "path" and x.get("lid") in LETS and depth < 4:
+            out |= guard_names(LETS[x["lid"]], depth + 1)[0]
     return frozenset(out), neg
 
 
@@ -47,6 +61,9 @@ class Seq:
         for y in hirq.walk(self.h["body"]):
             if y.get("k") == "let" and y.get("init") and y["pat"].get("k") == "bind":
                 self.lets[y["pat"].get("lid")] = y["init"]
+            # `let x; ... x = e;` (deferred initialisation): the single assignment is the binding
+            if y.get("k") == "assign" and hirq.strip(y["l"]).get("k") == "path" and hirq.strip(y["l"]).get("lid") is not None:
+                self.lets.setdefault(hirq.strip(y["l"])["lid"], y["r"])
 
     def derives(self, n, lid, depth=0):
         """Does expression n derive from local lid (through let-bound locals, format!, to_string)?"""
@@ -86,7 +103,13 @@ class Seq:
         self.counter = counter
         if counter is None:
             return self
-        self._walk(self.h["body"], [], [])
+        global LETS
+        saved = LETS
+        LETS = {y["pat"].get("lid"): y["init"] for y in hirq.walk(self.h["body"]) if y.get("k") == "let" and y.get("init") and y["pat"].get("k") == "bind" and not y["pat"].get("mut")}
+        try:
+            self._walk(self.h["body"], [], [])
+        finally:
+            LETS = saved
         return self
 
     def _walk(self, n, guards, loops):
@@ -103,7 +126,8 @@ class Seq:
         if k == "match" and n.get("src") == "ForLoopDesugar":
             for x, it, var, body in hirq.for_loops(n):
                 if x is n:
-                    names = frozenset((c.get("def") or "").split("::")[-1] for c in hirq.calls(it) if (c.get("def") or "").startswith("structs::")) or frozenset(
+                    src = [it] + [LETS[y["lid"]] for y in hirq.walk(it) if y.get("k") == "path" and y.get("lid") in LETS]
+                    names = frozenset((c.get("def") or "").split("::")[-1] for s_ in src for c in hirq.calls(s_) if (c.get("def") or "").startswith("structs::")) or frozenset(
                         str(self.h["params"][i].get("name")) for i, p_ in enumerate(self.h["params"]) if p_.get("lid") in _local_lids(it)
                     )
                     self._walk(body, guards, loops + [names])
